@@ -217,11 +217,11 @@ func Verif_C12_Attribution(k int) {
 	var file *ast.File
 	var fieldPos []token.Pos
 	var typePos token.Pos
-	if verifsym.Symbolic() {
+	if verifsym.Symbolic() && !vRealParser {
 		file, fieldPos, typePos = vAttrAST(fset, typeDoc, braceComment, fields)
 	} else {
 		var err error
-		file, err = parser.ParseFile(fset, "/src/p/p.go", vAttrSource(typeDoc, braceComment, fields), parser.ParseComments)
+		file, err = vParse(fset, "/src/p/p.go", vAttrSource(typeDoc, braceComment, fields), parser.ParseComments)
 		if err != nil {
 			panic(err)
 		}
